@@ -305,7 +305,7 @@ def r52(ctx: Ctx) -> RuleReport:
     vm = args[1] if len(args) > 1 else None
     rep.add('penman.tree:Tree.reset_variables: _map_vars receives the whole tree and the map', fi.loc(a),
             'ok' if args[:1] == ['self.node'] and vm else 'undecided', str(args))
-    loop = next((n for n in walk_local(fi.node) if isinstance(n, ast.For) and norm(n.iter) == 'self.nodes()'), None)
+    loop = next((n for n in walk_local(fi.node) if isinstance(n, ast.For) and norm(single_def(ctx, fi, n.iter) if isinstance(n.iter, ast.Name) else n.iter) == 'self.nodes()'), None)
     good = False
     if loop is not None and isinstance(loop.target, ast.Tuple):
         v = norm(loop.target.elts[0])
@@ -373,6 +373,27 @@ def r52(ctx: Ctx) -> RuleReport:
                               f'`{vm}`, and the rewrite then fails with KeyError or leaves it with a name that is now taken')
                 return rep
     rep.add('penman.tree:Tree.reset_variables: every node variable not yet mapped receives a new name', fi.loc(), 'ok' if good else 'undecided')
+    # the retry test: a candidate name is refused only because it was HANDED OUT already - never because of the names the tree has at present
+    for w in [n for n in walk_local(fi.node) if isinstance(n, ast.While)]:
+        fmt_names = {n.targets[0].id for n in ast.walk(w) if isinstance(n, ast.Assign) and isinstance(n.targets[0], ast.Name) and isinstance(n.value, ast.Call)
+                     and isinstance(n.value.func, ast.Attribute) and n.value.func.attr == 'format'}
+        for cmp_ in [x for x in ast.walk(w.test) if isinstance(x, ast.Compare) and len(x.ops) == 1 and isinstance(x.ops[0], ast.In) and norm(x.left) in fmt_names
+                     and isinstance(x.comparators[0], ast.Name)]:
+            S = cmp_.comparators[0].id
+            inits = [v_ for v_ in ctx.cg.local_assigns(fi).get(S, []) if isinstance(v_, ast.AST)]
+            adds = [c.args[0] for c in walk_local(fi.node) if isinstance(c, ast.Call) and isinstance(c.func, ast.Attribute) and c.func.attr in ('add', 'update') and norm(c.func.value) == S and c.args]
+            k9 = f'penman.tree:Tree.reset_variables: `{norm(cmp_)}` refuses a candidate only if it was handed out before'
+            empty_init = all((isinstance(v_, ast.Call) and norm(v_.func) == 'set' and not v_.args) or (isinstance(v_, ast.Set) and not v_.elts) for v_ in inits)
+            from_tree = [v_ for v_ in inits if any(isinstance(y, ast.Call) and isinstance(y.func, ast.Attribute) and y.func.attr in ('nodes', 'variables', 'walk') for y in ast.walk(single_def(ctx, fi, v_) if isinstance(v_, ast.Name) else v_))
+                         or any(isinstance(y, ast.comprehension) and isinstance(y.iter, ast.Name) and norm(single_def(ctx, fi, y.iter)).endswith('.nodes()') for y in ast.walk(v_))]
+            if inits and empty_init and adds and all(norm(a_) in fmt_names for a_ in adds):
+                rep.ok(k9, fi.loc(cmp_), f'{S} starts empty and only receives new names')
+            elif from_tree:
+                rep.violation(k9, fi.loc(cmp_), f'`{S}` is filled from the tree (`{norm(from_tree[0])[:50]}`): the variables the tree has NOW. A candidate that happens to be the present name of a '
+                              f'later node is skipped, so the names depend on how the tree is spelled at the moment, not only on concepts and depth-first order: '
+                              f'"(b / alpha :ARG0 (a / beta))" is relabelled a2, b instead of a, b, and relabelling twice does not give the same tree as relabelling once')
+            else:
+                rep.undecided(k9, fi.loc(cmp_), f'{S}: {[norm(v_)[:30] for v_ in inits]}')
     return rep
 
 
@@ -748,7 +769,21 @@ def r58(ctx: Ctx) -> RuleReport:
         else:
             rep.undecided(rkey, rf.loc(n), norm(n.value)[:80])
     if not rsets:
-        rep.undecided(rkey, rf.loc(), 'no set built from t.nodes()')
+        # no variable set at all: is "attribute" decided by the target being atomic?
+        keyfs = [f for f in ctx.repo.all_functions() if f.parent is rf]
+        atomic_only = None
+        for kf in keyfs:
+            has_member = any(isinstance(x, ast.Compare) and any(isinstance(o, (ast.In, ast.NotIn)) for o in x.ops) for x in walk_local(kf.node))
+            atom = [x for x in walk_local(kf.node) if isinstance(x, ast.Call) and norm(x.func) == 'is_atomic']
+            if atom and not has_member and any(isinstance(x, ast.Name) and x.id == 'attributes_first' for x in ast.walk(kf.node)):
+                atomic_only = (kf, atom[0])
+        if atomic_only:
+            kf, a_ = atomic_only
+            rep.violation(rkey, kf.loc(a_), f'no set of node variables is built any more; with attributes_first a branch counts as an attribute when `{norm(a_)}` holds. A re-entrancy '
+                          f'(":ARG2 g" where g is a node of the tree) has an atomic target too: it is sorted into the attribute block, in front of the real attributes\' edges - the '
+                          f'documented order "attributes, then edges" is not what --rearrange attributes-first produces')
+        else:
+            rep.undecided(rkey, rf.loc(), 'no set built from t.nodes()')
     # _interpret_node passes the same set down unchanged
     inner = ctx.repo.func('penman.layout', '_interpret_node')
     vp = inner.positional[1]
@@ -3137,6 +3172,12 @@ def r111(ctx: Ctx) -> RuleReport:
                 continue
             key = f'{fi.module.name}:{fi.qualname}: `{norm(n)[:50]}`'
             if not n.args:
+                if fi.module.name == 'penman._format' and not isinstance(n.func.value, ast.Constant) and not getattr(ctx, '_is_probe', False):
+                    # the writer: the text holds symbols of the tree, and Python's whitespace is a larger set than the lexer's separators
+                    rep.violation(key, fi.loc(n), f'`{norm(n)[:50]}` strips every character str.isspace() knows, on text that contains a symbol of the tree. The lexer separates tokens at '
+                                  f'space, tab, CR, LF, VT and FF only: a symbol can end in U+00A0, U+3000, U+0085 ... ("(a / alpha :ARG0 b\u00a0)"), and that character is '
+                                  f'dropped when the tree is written - parse(format(t)) is a different tree')
+                    continue
                 rep.ok(key, fi.loc(n), 'whitespace')
                 continue
             oks, cs = fold_in_any(ctx, fi, n.args[0])
@@ -3667,4 +3708,60 @@ def r131(ctx: Ctx) -> RuleReport:
                                   f'markers) and copied with deepcopy; {what} cannot be pickled or deep-copied: the same call that works in-process raises TypeError in a worker')
                 else:
                     rep.ok(key, ctx.repo.func(c.module.name, m.qualname).loc(n))
+    return rep
+
+
+# ---------------------------------------------------------------------------------------------
+@rule('R139', 'a flag that a loop raises with `flag = True` is not overwritten by a computed value in another round of the same loop (it accumulates: |=, or, or only ever True)')
+def r139(ctx: Ctx) -> RuleReport:
+    """changed = False / for ...: if a: changed = True / else: changed = <computed for this item>  ... `changed` read after the loop:
+    the computed assignment forgets what an earlier item established."""
+    from ..cfg import assigned_names
+    rep = RuleReport('R139', r139.title, floor=0)
+    n_flags = 0
+    for fi in ctx.repo.all_functions():
+        loops = [n for n in walk_local(fi.node) if isinstance(n, (ast.For, ast.While))]
+        if not loops:
+            continue
+        cfg = None
+        for lp in loops:
+            inside = [n for b in lp.body for n in ast.walk(b) if isinstance(n, ast.Assign) and len(n.targets) == 1 and isinstance(n.targets[0], ast.Name)]
+            raised = {n.targets[0].id for n in inside if isinstance(n.value, ast.Constant) and n.value.value is True}
+            for x in sorted(raised):
+                computed = [n for n in inside if n.targets[0].id == x and not isinstance(n.value, ast.Constant)
+                            and not any(isinstance(y, ast.Name) and y.id == x for y in ast.walk(n.value))]
+                if not computed:
+                    continue
+                # initialised to False before the loop, and read after it
+                pre = [n for n in walk_local(fi.node) if isinstance(n, ast.Assign) and len(n.targets) == 1 and norm(n.targets[0]) == x and isinstance(n.value, ast.Constant)
+                       and n.value.value is False and not any(n is y for y in ast.walk(lp))]
+                if not pre:
+                    continue
+                if cfg is None:
+                    cfg = CFG(fi.node)
+                head = cfg.node_of(lp)
+                n_flags += 1
+                key = f'{fi.fq}: flag `{x}` raised in the loop `{norm(lp).splitlines()[0][:40]}` stays raised'
+                ups = [n for n in inside if n.targets[0].id == x and isinstance(n.value, ast.Constant) and n.value.value is True]
+                bad = None
+                for u in ups:
+                    for c_ in computed:
+                        un, cn = cfg.node_of(u), cfg.node_of(c_)
+                        # raise -> loop head -> computed assignment, with no other assignment of the flag in between
+                        others = {cfg.node_of(n) for n in inside if n.targets[0].id == x} - {un, cn}
+                        p1 = cfg.path_avoiding([(un, None)], {head}, lambda nd: nd.id in others or nd.id == cn)
+                        p2 = cfg.path_avoiding([(head, 'T')], {cn}, lambda nd: nd.id in others) or cfg.path_avoiding([(head, None)], {cn}, lambda nd: nd.id in others)
+                        if p1 and p2:
+                            bad = (u, c_)
+                # read after the loop (or in the loop test)?
+                after = cfg.reachable_from([head], avoid=lambda nd: False, via=lambda a, b, lab: not (a == head and lab == 'T'))
+                read_after = any(nd.ast is not None and nd.id in after and nd.id != head and not any(nd.ast is y for b in lp.body for y in ast.walk(b))
+                                 and any(isinstance(y, ast.Name) and y.id == x and isinstance(y.ctx, ast.Load) for y in ast.walk(nd.ast)) for nd in cfg.nodes)
+                if bad and read_after:
+                    u, c_ = bad
+                    rep.violation(key, fi.loc(c_), f'`{norm(c_)[:50]}` assigns the flag from the current item alone; in an earlier round `{norm(u)}` may have raised it, and that is forgotten '
+                                  f'when a later item computes False - what the code after the loop does with `{x}` then depends only on the items that came last')
+                else:
+                    rep.ok(key, fi.loc(lp))
+    rep.analysed['flags_examined'] = n_flags
     return rep
